@@ -219,6 +219,12 @@ fn run_twins(ctx: &mut Ctx, hist_records: &[StepRecord], seed: u64) {
                     sigm.insert("twin".into(), which.to_string());
                     sigm.insert("stmt".into(), pr.step.op.kind().to_string());
                     sigm.insert("what".into(), d.what.clone());
+                    // unlogged statement kinds executed so far (KF-C04-01 / KF-C21-03 conditions)
+                    let mut hist: Vec<&str> = hist_records[..=i].iter().map(|r| r.step.op.kind()).filter(|k| *k == "TRUNCATE" || *k == "DROP_COLUMN").collect();
+                    hist.sort();
+                    hist.dedup();
+                    sigm.insert("unlogged_before".into(), if hist.is_empty() { "none".to_string() } else { hist.join("+") });
+                    sigm.insert("wal".into(), ctx.swarm.cfg.wal.to_string());
                     ctx.out.violations.push(simcore::Violation {
                         property: prop.to_string(),
                         verdict: "twin-state-differs".into(),
